@@ -15,7 +15,9 @@ META = {
         "BufferReader, scoped_seek context manager and primitives are inlined. Together: what serialize writes for an unparsed message "
         "is what the header parser reads (composition checked in the bounded tier). UDPMessageDeserializer.parse_message_body: "
         "a body parse that fails (any exception of the template-directed parser) leaves raw_body exactly as it was, so the datagram is "
-        "still forwarded verbatim; a successful one consumes raw_body after exactly one parse of those very bytes. "
+        "still forwarded verbatim; a successful one consumes raw_body after exactly one parse of those very bytes. For a datagram whose "
+        "body was parsed, re-encoding goes through the template walk: C01's block-framing contracts (_serialize_block, serialize on a "
+        "built body, _parse_message_body) are re-verified in this check. "
         "B (bounded, labelled): zero-coded header peek, lazy/eager parse + text heuristics + failed-parse frame condition over generated, "
         "non-canonically re-zero-coded, truncated, extended and bit-flipped datagrams x inspection orders."),
     "trusted_base": [
@@ -33,6 +35,15 @@ def register(reg):
     reg.fns["hippolyzer.lib.base.message.udpdeserializer:UDPMessageDeserializer._parse_message_header@plain"].also.append("C01")
     from contracts import c02b_contracts
     c02b_contracts.register_p2(reg, PID)
+    # re-encoding a datagram whose body was parsed goes through the template walk: C01's framing contracts are re-verified here
+    from contracts import c01b_contracts, c01c_contracts, c01d_contracts
+    c01b_contracts.register_p2(reg, "C01")
+    c01c_contracts.register_p3(reg, "C01")
+    c01d_contracts.register_p4(reg, "C01")
+    for k_ in ("hippolyzer.lib.base.message.udpserializer:UDPMessageSerializer._serialize_block",
+               "hippolyzer.lib.base.message.udpdeserializer:UDPMessageDeserializer._parse_message_body",
+               "hippolyzer.lib.base.message.udpserializer:UDPMessageSerializer.serialize@built_body"):
+        reg.fns[k_].also.append(PID)
 
 
 from contracts import c01_native
